@@ -434,6 +434,9 @@ type docCase struct {
 	FileName string   `json:"file_name"`
 	Text     string   `json:"text"`
 	Features []string `json:"features,omitempty"`
+	// Expect is the reference meaning of a buf.yaml document computed from the generator's model
+	// (internal/cfggen/expect.go); nil for the other file kinds.
+	Expect *cfggen.Expect `json:"expect,omitempty"`
 }
 
 type verdict struct {
@@ -507,7 +510,26 @@ func checkDoc(ctx context.Context, c docCase, isKnown func(string) bool) *verdic
 	tag := c.Doc + ":" + c.Version
 	h1, rerr, werr := process(ctx, c, c.Text)
 	if rerr != nil {
+		if c.Expect != nil {
+			// The document was rendered from a model whose meaning is known (and which the reader accepts
+			// on the unchanged tree for every generated shape): a rejection is the reader's fault.
+			return violation("reader-rejected:"+tag, "the reader rejects a valid %s document: %v\ndocument:\n%s", tag, rerr, c.Text)
+		}
 		return &verdict{harness: true, msg: fmt.Sprintf("harness: generated %s document rejected by the reader: %v\n%s", tag, rerr, c.Text)}
+	}
+	if again, rerr2, _ := process(ctx, c, c.Text); rerr2 != nil {
+		return violation("reader-nondeterministic:"+tag, "second read of the same %s text fails: %v\ndocument:\n%s", tag, rerr2, c.Text)
+	} else if path, detail := firstDiff("", toGeneric(h1.obs), toGeneric(again.obs)); path != "" {
+		return violation("reader-nondeterministic:"+tag, "%s: two reads of the same text differ at %s: %s\ndocument:\n%s", tag, path, detail, c.Text)
+	}
+	if c.Expect != nil {
+		o := h1.obs.(obsBufYAML)
+		want := toGeneric(map[string]any{"modules": c.Expect.Modules, "deps": c.Expect.Deps})
+		got := toGeneric(map[string]any{"modules": o.Modules, "deps": o.Deps})
+		if path, detail := firstDiff("", want, got); path != "" {
+			return violation("reader:"+tag+":"+classifier(path),
+				"%s: the configuration read differs from what the document says at %s (before = reference meaning, after = buf): %s\ndocument:\n%s", tag, path, detail, c.Text)
+		}
 	}
 	if werr != nil {
 		return violation("write-failed:"+tag, "a %s document the reader accepts cannot be written back: %v\ndocument:\n%s", tag, werr, c.Text)
@@ -606,7 +628,7 @@ func runDocs(t *testing.T, salt int, quick, thorough int, gen func(*rapid.T) cfg
 	ctx := context.Background()
 	r.Check(t, r.Scale(quick, thorough), salt, func(t *rapid.T) {
 		d := gen(t)
-		c := docCase{Kind: "doc", Doc: d.Kind, Version: d.Version, FileName: d.FileName, Text: d.Text, Features: d.Features}
+		c := docCase{Kind: "doc", Doc: d.Kind, Version: d.Version, FileName: d.FileName, Text: d.Text, Features: d.Features, Expect: d.Expect}
 		r.Eval()
 		r.Class(d.Kind + ":" + d.Version)
 		seen := map[string]bool{}
